@@ -162,6 +162,27 @@ theorem execDelete_spec (ex : Bool) (cur : String) :
   unfold execDelete
   by_cases hc : cur ∈ completedStates <;> cases ex <;> simp [hc]
 
+theorem execDeleteReq_spec (ex : Bool) (cur : String) (force : Option String) :
+    execDeleteReq ex cur force = .res .deleted → ¬ cur ∈ completedStates →
+      ∃ t, force = some t ∧ boolFromString t = some true := by
+  intro h hc
+  cases force with
+  | none =>
+    simp only [execDeleteReq] at h
+    have := execDelete_spec ex cur (by simpa using h)
+    exact absurd this.1 hc
+  | some t =>
+    simp only [execDeleteReq] at h
+    cases hb : boolFromString t with
+    | none => simp [hb] at h
+    | some b =>
+      cases b with
+      | true => exact ⟨t, rfl, hb⟩
+      | false =>
+        simp only [hb] at h
+        have := execDelete_spec ex cur (by simpa using h)
+        exact absurd this.1 hc
+
 theorem actionDelete_spec (ex : Bool) (cur : String) :
     ∀ allowed hasTask, actionDelete allowed ex hasTask cur = .deleted →
       cur ∈ completedStates ∧ hasTask = false ∧ allowed = true ∧ ex = true := by
